@@ -382,6 +382,14 @@ class Inventory:
                     continue
                 if c in prog.fns:
                     continue
+                if c in ("core::ops::FnOnce::call_once", "core::ops::FnMut::call_mut", "core::ops::Fn::call"):
+                    # a closure literal applied directly (what the normalising pass leaves of `opt.map_or(d, |x| ..)` when the body is too large to
+                    # inline): the body is a crate function in the inventory, analysed on its own like any callee
+                    cty = (t.get("cargs") or [{}])[0]
+                    if isinstance(cty, dict) and cty.get("k") == "ref":
+                        cty = cty.get("to", {})
+                    if isinstance(cty, dict) and cty.get("k") == "closure" and cty.get("path") in prog.fns and cty.get("path") in self.closure:
+                        continue
                 if f.path in WRAPPERS and c == WRAPPERS[f.path][1]:
                     ok = self.is_forwarder(f, fa, b)
                     self.discharge("P-wrapper", f, "forwards to %s" % c.rsplit("::", 1)[1], ok,
